@@ -186,40 +186,14 @@ func handleZCOUNT(params internal.HandlerFuncParams) ([]byte, error) {
 	key := keys.ReadKeys[0]
 	keyExists := params.KeysExist(params.Context, keys.ReadKeys)[key]
 
-	minimum := Score(math.Inf(-1))
-	switch internal.AdaptType(params.Command[2]).(type) {
-	default:
+	minimum, err := parseScore(params.Command[2])
+	if err != nil {
 		return nil, errors.New("min constraint must be a double")
-	case string:
-		if strings.ToLower(params.Command[2]) == "+inf" {
-			minimum = Score(math.Inf(1))
-		} else {
-			return nil, errors.New("min constraint must be a double")
-		}
-	case float64:
-		s, _ := internal.AdaptType(params.Command[2]).(float64)
-		minimum = Score(s)
-	case int:
-		s, _ := internal.AdaptType(params.Command[2]).(int)
-		minimum = Score(s)
 	}
 
-	maximum := Score(math.Inf(1))
-	switch internal.AdaptType(params.Command[3]).(type) {
-	default:
+	maximum, err := parseScore(params.Command[3])
+	if err != nil {
 		return nil, errors.New("max constraint must be a double")
-	case string:
-		if strings.ToLower(params.Command[3]) == "-inf" {
-			maximum = Score(math.Inf(-1))
-		} else {
-			return nil, errors.New("max constraint must be a double")
-		}
-	case float64:
-		s, _ := internal.AdaptType(params.Command[3]).(float64)
-		maximum = Score(s)
-	case int:
-		s, _ := internal.AdaptType(params.Command[3]).(int)
-		maximum = Score(s)
 	}
 
 	if !keyExists {
@@ -391,25 +365,9 @@ func handleZINCRBY(params internal.HandlerFuncParams) ([]byte, error) {
 	keyExists := params.KeysExist(params.Context, keys.WriteKeys)[key]
 
 	member := Value(params.Command[3])
-	var increment Score
-
-	switch internal.AdaptType(params.Command[2]).(type) {
-	default:
+	increment, err := parseScore(params.Command[2])
+	if err != nil {
 		return nil, errors.New("increment must be a double")
-	case string:
-		if strings.EqualFold("-inf", strings.ToLower(params.Command[2])) {
-			increment = Score(math.Inf(-1))
-		} else if strings.EqualFold("+inf", strings.ToLower(params.Command[2])) {
-			increment = Score(math.Inf(1))
-		} else {
-			return nil, errors.New("increment must be a double")
-		}
-	case float64:
-		s, _ := internal.AdaptType(params.Command[2]).(float64)
-		increment = Score(s)
-	case int:
-		s, _ := internal.AdaptType(params.Command[2]).(int)
-		increment = Score(s)
 	}
 
 	if !keyExists {
@@ -877,12 +835,12 @@ func handleZREMRANGEBYSCORE(params internal.HandlerFuncParams) ([]byte, error) {
 
 	deletedCount := 0
 
-	minimum, err := strconv.ParseFloat(params.Command[2], 64)
+	minimum, err := parseScore(params.Command[2])
 	if err != nil {
 		return nil, err
 	}
 
-	maximum, err := strconv.ParseFloat(params.Command[3], 64)
+	maximum, err := parseScore(params.Command[3])
 	if err != nil {
 		return nil, err
 	}
@@ -897,7 +855,7 @@ func handleZREMRANGEBYSCORE(params internal.HandlerFuncParams) ([]byte, error) {
 	}
 
 	for _, m := range set.GetAll() {
-		if m.Score >= Score(minimum) && m.Score <= Score(maximum) {
+		if m.Score >= minimum && m.Score <= maximum {
 			set.Remove(m.Value)
 			deletedCount += 1
 		}
@@ -1043,14 +1001,15 @@ func handleZRANGE(params internal.HandlerFuncParams) ([]byte, error) {
 		policy = "bylex"
 	} else {
 		// policy is "byscore" make sure start and stop are valid float values
-		scoreStart, err = strconv.ParseFloat(params.Command[2], 64)
+		start, err := parseScore(params.Command[2])
 		if err != nil {
 			return nil, err
 		}
-		scoreStop, err = strconv.ParseFloat(params.Command[3], 64)
+		stop, err := parseScore(params.Command[3])
 		if err != nil {
 			return nil, err
 		}
+		scoreStart, scoreStop = float64(start), float64(stop)
 	}
 
 	if slices.ContainsFunc(params.Command[4:], func(s string) bool {
@@ -1180,14 +1139,15 @@ func handleZRANGESTORE(params internal.HandlerFuncParams) ([]byte, error) {
 		policy = "bylex"
 	} else {
 		// policy is "byscore" make sure start and stop are valid float values
-		scoreStart, err = strconv.ParseFloat(params.Command[3], 64)
+		start, err := parseScore(params.Command[3])
 		if err != nil {
 			return nil, err
 		}
-		scoreStop, err = strconv.ParseFloat(params.Command[4], 64)
+		stop, err := parseScore(params.Command[4])
 		if err != nil {
 			return nil, err
 		}
+		scoreStart, scoreStop = float64(start), float64(stop)
 	}
 
 	if slices.ContainsFunc(params.Command[5:], func(s string) bool {
